@@ -53,7 +53,7 @@ class List(Expression):
         # tested before each iteration.
         is_static_max = self.max_len is None or str(self.max_len).isdigit()
         loop_condition = True if is_static_max else (
-            LEN(staging) < Code(self.max_len)
+            LEN(staging) < _bound(self.max_len)
         )
 
         with out.WHILE(loop_condition):
@@ -68,7 +68,7 @@ class List(Expression):
             out += staging.append(RESULT)
 
             if self.max_len is not None:
-                with out.IF(LEN(staging) == Code(self.max_len)):
+                with out.IF(LEN(staging) == _bound(self.max_len)):
                     out += BREAK
 
         if not self.min_len or self.min_len == '0':
@@ -79,11 +79,16 @@ class List(Expression):
         if self.min_len == 1 or self.min_len == '1':
             condition = staging
         else:
-            condition = LEN(staging) >= Code(self.min_len)
+            condition = LEN(staging) >= _bound(self.min_len)
 
         with out.IF(condition):
             out += RESULT << staging
             out += STATUS << True
+
+
+def _bound(source_code):
+    # A bound may be any Python expression ("n or 1"), so keep it in parentheses.
+    return Code('(', source_code, ')')
 
 
 def _check_min_and_max_len(min_len, max_len):
